@@ -84,8 +84,11 @@ def replay(fl, FA, clause, norm, vals):
         obs = T(a, b)
         ok = (obs == a + b) if norm == "UnboundedSum" else bool(0 <= obs <= 1)
         return {"failed": not ok, "expected": "in [0,1]", "observed": float(obs), "call": f"{norm}().compute({a!r}, {b!r})"}
+    O = lambda u, v: np.float64(ALL[norm](FA, np.float64(u), np.float64(v)))          # the documented formula evaluated in doubles
     if clause == "comm":
-        return {"failed": not close(T(a, b), T(b, a)), "expected": float(T(b, a)), "observed": float(T(a, b)), "call": f"{norm}: T(a,b) vs T(b,a) a={a!r} b={b!r}"}
+        # exact: every documented formula is symmetric in its operands operation by operation, so its value in doubles is too
+        x1, x2 = T(a, b), T(b, a)
+        return {"failed": not (x1 == x2 or (x1 != x1 and x2 != x2)), "expected": float(x2), "observed": float(x1), "call": f"{norm}: T(a,b) vs T(b,a) (exactly) a={a!r} b={b!r}"}
     if clause == "mono":
         lo, hi = min(a, c), max(a, c)
         ok = T(lo, b) <= T(hi, b) + 1e-12
@@ -93,16 +96,28 @@ def replay(fl, FA, clause, norm, vals):
     if clause == "assoc":
         l, r = T(T(a, b), c), T(a, T(b, c))
         return {"failed": not FA.same(l, r, rel=1e-9, abs_=1e-9), "expected": float(r), "observed": float(l), "call": f"{norm}: a={a!r} b={b!r} c={c!r}"}
+    # the laws below hold for the real-valued formula; in doubles they hold up to rounding - EXACTLY at every point where the documented formula evaluated in
+    # doubles satisfies them exactly (the code claims to compute that formula), within 1e-12 elsewhere
     if clause == "identity":
         e = 1.0 if norm in TNORMS else 0.0
-        return {"failed": not (close(T(a, e), a) and close(T(e, a), a)), "expected": float(a), "observed": [float(T(a, e)), float(T(e, a))], "call": f"{norm}: a={a!r} e={e}"}
+        exact = O(a, e) == a and O(e, a) == a
+        ok = (T(a, e) == a and T(e, a) == a) if exact else (close(T(a, e), a) and close(T(e, a), a))
+        return {"failed": not ok, "expected": float(a), "observed": [float(T(a, e)), float(T(e, a))], "call": f"{norm}: a={a!r} e={e}" + (" (exactly: the documented formula gives a in doubles)" if exact else "")}
     if clause == "annihilator":
         z = 0.0 if norm in TNORMS else 1.0
-        return {"failed": not (close(T(a, z), z) and close(T(z, a), z)), "expected": z, "observed": [float(T(a, z)), float(T(z, a))], "call": f"{norm}: a={a!r} z={z}"}
+        exact = O(a, z) == z and O(z, a) == z
+        ok = (T(a, z) == z and T(z, a) == z) if exact else (close(T(a, z), z) and close(T(z, a), z))
+        return {"failed": not ok, "expected": z, "observed": [float(T(a, z)), float(T(z, a))], "call": f"{norm}: a={a!r} z={z}" + (" (exactly: the documented formula gives it in doubles)" if exact else "")}
     if clause == "bound":
-        obs = T(a, b)
-        ok = obs <= min(a, b) + 1e-12 if norm in TNORMS else obs >= max(a, b) - 1e-12
-        return {"failed": not ok, "expected": "<= min(a,b)" if norm in TNORMS else ">= max(a,b)", "observed": float(obs), "call": f"{norm}: a={a!r} b={b!r}"}
+        obs, orc = T(a, b), O(a, b)
+        if norm in TNORMS:
+            exact = orc <= min(a, b)
+            ok = obs <= min(a, b) if exact else obs <= min(a, b) + 1e-12
+        else:
+            exact = orc >= max(a, b)
+            ok = obs >= max(a, b) if exact else obs >= max(a, b) - 1e-12
+        return {"failed": not ok, "expected": ("<= min(a,b)" if norm in TNORMS else ">= max(a,b)") + (" exactly (the documented formula in doubles satisfies it)" if exact else " within 1e-12"), "observed": float(obs),
+                "call": f"{norm}: a={a!r} b={b!r}"}
     if clause == "dual":
         if 1.0 - (1.0 - a) != a or 1.0 - (1.0 - b) != b:
             return {"failed": False, "skipped": "the complement 1 - x of an operand is not exact in doubles (x < 0.5 in general): the duality is a statement about exact complements"}
@@ -152,6 +167,14 @@ def replay(fl, FA, clause, norm, vals):
             pts.append((rng.random(), rng.random()))
             pts.append((rng.randrange(0, 65) / 64.0, rng.randrange(0, 65) / 64.0))
         clauses = ["formula", "range"] + ([] if norm == "UnboundedSum" else ["comm", "bound", "mono"]) + (["dual"] if norm in DUAL else [])
+        if norm != "UnboundedSum":
+            for _ in range(n_):      # identity and annihilator at random doubles and on the grid
+                x = rng.random() if rng.random() < 0.5 else rng.randrange(0, 65) / 64.0
+                for cl in ("identity", "annihilator", "bound"):
+                    for (u, v) in ((x, 1.0), (1.0, x), (x, 0.0), (0.0, x)):
+                        r = replay(fl, FA, cl, norm, {"a": u, "b": v, "c": 0.5})
+                        if r.get("failed"):
+                            return r
         for (u, v) in pts:
             for cl in clauses:
                 r = replay(fl, FA, cl, norm, {"a": u, "b": v, "c": rng.random()})
